@@ -110,3 +110,44 @@ func Harness_C08_p2p_resubscribe() {
 	}
 	verifReach("end")
 }
+
+// Reload of the other stored topic kinds: numbering resumes from the stored high-water mark whoever is (or is
+// not) subscribed - 'sys' accepts publishes from users without a subscription, and a group may have lost all
+// but its owner.
+func Harness_C01_sys_grp_reload() {
+	verifNewStore()
+	verifInitGlobals()
+	seq, del := verifSeq("storedSeq"), verifSeq("storedDel")
+	kind := verifChoose("kind", 2)
+	name := []string{"sys", "grpAAAAAAAAAAB"}[kind]
+	st := &types.Topic{ObjHeader: types.ObjHeader{Id: name}, SeqId: seq, DelId: del}
+	verifStore.topics[name] = st
+	nSubs := verifChoose("subscribers", 3)
+	if kind == 1 && nSubs == 0 {
+		nSubs = 1 // a group always has its owner
+	}
+	for i := 0; i < nSubs; i++ {
+		u := types.Uid(5 + i)
+		mode := types.ModeCPublic
+		if i == 0 && kind == 1 {
+			mode = types.ModeCFull
+			st.Owner = u.String()
+		}
+		verifStore.subs[verifSubKey(name, u)] = &types.Subscription{User: u.String(), Topic: name, ModeWant: mode, ModeGiven: mode}
+		verifStore.users[u] = &types.User{State: types.StateOK}
+	}
+	t := &Topic{name: name, xoriginal: name, perUser: map[types.Uid]perUserData{}, sessions: map[*Session]perSessionData{}}
+	var err error
+	if kind == 0 {
+		err = initTopicSys(t)
+	} else {
+		err = initTopicGrp(t)
+	}
+	verifAssert(err == nil, "topic-loads")
+	verifAssert(t.lastID == seq, "numbering-resumes-from-the-stored-high-water-mark")
+	if kind == 1 {
+		verifAssert(t.delID == del, "delete-counter-resumes-from-the-store")
+	}
+	verifAssert(len(t.perUser) == nSubs, "subscribers-loaded")
+	verifReach("end")
+}
